@@ -12,7 +12,7 @@ from .. import gen, build, mcase, monitors, refgeo as rg
 from .C05 import to_latlon
 
 ID = "C17"
-CASES = {"quick": 3000, "thorough": 300000}
+CASES = {"quick": 10000, "thorough": 300000}
 MIN_CASES_PER_SHARD = 50
 CASE_TIMEOUT = 40
 RULE = ("one case = generated map (incl. zero-length roads, self-listed neighbours) x hostile trace (observations exactly on nodes / on roads / "
@@ -129,6 +129,6 @@ def check_case(ctx, case):
 
 
 TECHNIQUE = "runtime monitoring: totality monitor (classified exceptions escaping match on generated hostile valid inputs) + pairs-vs-triples differential"
-LEVEL_TEXT = ("3k (quick) / 300k (thorough) generated hostile valid inputs in every (family, metric, non-emitting) cell, each matched with pairs and with "
+LEVEL_TEXT = ("{Q} (quick) / {T} (thorough) generated hostile valid inputs in every (family, metric, non-emitting) cell, each matched with pairs and with "
               "time triples; any escaping exception is a violation classified by origin; the two results must be equal. Held-on-observed.")
 LEVEL_NOTE = "Trusted: the notion of valid input stated in the assumptions. InMemMap only (SqliteMap is covered by C04/C12)."
